@@ -196,8 +196,22 @@ def run_config(ctx, facts):
         st = base_ty(im["self_ty"])
         tr = im["trait"].rsplit("::", 1)[1]
         if "drop" in im["items"]:
-            ctx.ob("C12-R4", "%s overrides UnprotectedStorage::drop" % st, False, "%s:%d" % (im["file"], im["line"]),
-                   "a tracked storage overrides drop(): entity deletion would bypass the Removed event of remove()")
+            # the provided drop() goes through remove() and so through its Removed event.  An override is one more row of the event table:
+            # it must itself write Removed(id) to the storage's channel, under the emission switch, BEFORE it touches the inner storage
+            # (benign C12-p1 does exactly that to destroy in place; seed C12-i1 writes the event after the inner drop, so a panicking
+            # destructor loses it; a silent override loses every deletion)
+            db = facts.body(im["items"]["drop"])
+            dkey = "%s::drop (override)" % st
+            if not db:
+                ctx.ob("C12-R4", dkey, "undetermined", "%s:%d" % (im["file"], im["line"]), "no body")
+            elif not writes(db):
+                ctx.ob("C12-R4", "%s overrides UnprotectedStorage::drop" % st, False, "%s:%d" % (im["file"], im["line"]),
+                       "a tracked storage overrides drop() without writing an event: entity deletion bypasses the Removed event of remove()")
+            else:
+                def ddelegate(bb, t, trait=im["trait"], db=db):
+                    c = t["callee"]
+                    return c.get("path") in ("%s::drop" % trait, "%s::remove" % trait) and db.arg_origin(bb, 0)[:2] == ("param", 1)
+                check_emitting(ctx, facts, db, "Removed", ("param", 2, ()), "channel", ddelegate, dkey, rule="C12-R4")
         for m, variant in TABLE.items():
             if m not in im["items"]:
                 continue
